@@ -601,6 +601,7 @@ func mgMatrix() []*mgCmd {
 }
 
 func TestMgmtGen(t *testing.T) {
+	defer watchDriver("TestMgmtGen")()
 	w := newTrace("mgmt.ndjson")
 	defer w.Close()
 	nEx, nEv := envInt("VERIF_N", 40), envInt("VERIF_LEN", 25)
@@ -631,6 +632,7 @@ func TestMgmtGen(t *testing.T) {
 
 // TestMgmtReplay re-executes recorded histories ($VERIF_REPLAY: NDJSON with the "g" fields of a recorded trace).
 func TestMgmtReplay(t *testing.T) {
+	defer watchDriver("TestMgmtReplay")()
 	w := newTrace("mgmt.ndjson")
 	defer w.Close()
 	type row struct {
